@@ -80,7 +80,7 @@ def space(thorough: bool) -> Iterator[Any]:
 # ---- catalogue equations in source form -----------------------------------------------------------
 
 
-def source_members(modname: str) -> list[tuple[str, Any]]:
+def source_members(modname: str, with_directives: bool = False) -> list:
     """documented formula members (name, value in source form) of a catalogue module, obtained the
     way the documentation obtains them"""
     from symplyphysics.docs.parse import find_members_and_functions
@@ -102,5 +102,8 @@ def source_members(modname: str) -> list[tuple[str, Any]]:
     out = []
     for m in members:
         if m.directives and isinstance(m.value, (sp.Basic, list, tuple)):
-            out.append((m.name, m.value))
+            if with_directives:
+                out.append((m.name, m.value, {d.directive_type.name for d in m.directives}))
+            else:
+                out.append((m.name, m.value))
     return out
